@@ -13,7 +13,7 @@ from hera.data import DataLabel, HERAError, Label, Location, Program, Settings
 from hera.loader import load_program
 from hera.op import LABEL, OPCODE, Branch, DataOperation, disassemble, name_to_class
 from hera.parser import parse
-from hera.utils import format_int, out_of_range, pad
+from hera.utils import format_int, out_of_range, pad, to_u16
 
 from . import miniparser
 from .debugger import Debugger
@@ -249,7 +249,7 @@ class Shell:
                 vm.store_register(ltree.value, rhs)
             elif isinstance(ltree, MemoryNode):
                 address = self.evaluate_node(ltree.address)
-                vm.store_memory(address, rhs)
+                vm.store_memory(to_u16(address), to_u16(rhs))
             elif isinstance(ltree, SymbolNode):
                 if ltree.value == "pc":
                     vm.pc = rhs
@@ -942,7 +942,7 @@ class Shell:
             return vm.load_register(node.value)
         elif isinstance(node, MemoryNode):
             address = self.evaluate_node(node.address)
-            return vm.load_memory(address)
+            return vm.load_memory(to_u16(address))
         elif isinstance(node, SymbolNode):
             if node.value.lower() == "pc":
                 return vm.pc
